@@ -258,6 +258,20 @@ func (m *Machine) decide(conds []*smt.Term, site ssa.Instruction) int {
 	if nFalse == len(conds) {
 		m.end("infeasible", "no alternative")
 	}
+	// syntactic resolution against the path condition (deterministic, so replays agree)
+	inPC := map[int]bool{}
+	for _, c := range m.pc {
+		inPC[c.ID] = true
+	}
+	conds = append([]*smt.Term(nil), conds...)
+	for i, c := range conds {
+		if inPC[c.ID] {
+			return i
+		}
+		if inPC[smt.Not(c).ID] {
+			conds[i] = smt.False
+		}
+	}
 	if site != nil {
 		m.siteCnt[site]++
 		if m.siteCnt[site] > m.curUnwind {
